@@ -187,7 +187,7 @@ def eager_definition(times, comps):
         nb = int(math.ceil(Fraction(float(c["lead"])) / Fraction(float(dt))))
         na = int(math.ceil(Fraction(float(c["trail"])) / Fraction(float(dt))))
         grid = np.concatenate((times[0] - dt * np.arange(nb, 0, -1), times, times[-1] + dt * np.arange(1, na + 1)))
-        vals = np.asarray(c["fn"](grid - c["t0"]), dtype=float) * c["fac"]
+        vals = call_fn(c["fn"], grid - c["t0"]) * c["fac"]
         if c["filters"]:
             m = len(vals)
             freqs = scipy.fft.fftfreq(2 * m, d=dt)
@@ -218,7 +218,42 @@ def pulse_fn(kind, c, w, a, b):
         return lambda t: np.where(t < c, float(a), float(b)) + 0.25 * t
     if kind == 2:
         return lambda t: a * np.abs(t - c) + b
-    return lambda t: a * np.sin(1.5 * (t - c)) / (1.0 + ((t - c) / w) ** 2)
+    if kind == 3:
+        return lambda t: a * np.sin(1.5 * (t - c)) / (1.0 + ((t - c) / w) ** 2)
+    # functions written for ONE time at a time (math.*, `if`): they reject arrays, the signal must fall back to
+    # evaluating them sample by sample (with the same time origin handling as the vectorised route)
+    if kind == 4:
+        return lambda t: a * math.exp(-((float(t) - c) / w) ** 2)
+    return lambda t: (float(a) if float(t) < c else float(b)) + 0.25 * float(t)
+
+
+def call_fn(fn, ts):
+    """evaluate a backing function on an array of times: at once, or one sample at a time when it rejects arrays"""
+    try:
+        return np.asarray(fn(ts), dtype=float)
+    except (TypeError, ValueError):
+        return np.asarray([fn(t) for t in ts], dtype=float)
+
+
+class TabulatedResponse:
+    """a frequency response served from a table the caller keeps (memoised per frequency grid): every call with the
+    same frequencies returns THE SAME complex128 array object.  The table must never be modified by the signal
+    code, and evaluating a signal twice must give the same values."""
+
+    def __init__(self, delay):
+        self.delay, self.tables, self.pristine = delay, {}, {}
+        self.__name__ = "tabulated_%s" % delay
+
+    def __call__(self, f):
+        f = np.asarray(f, dtype=float)
+        key = (len(f), float(f[1]) if len(f) > 1 else 0.0, float(f[-1]) if len(f) else 0.0)
+        if key not in self.tables:
+            self.tables[key] = np.exp(-2j * np.pi * f * self.delay) / (1 + (np.abs(f) / 1.5) ** 2)
+            self.pristine[key] = np.array(self.tables[key])
+        return self.tables[key]
+
+    def modified(self):
+        return [k for k in self.tables if not np.array_equal(self.tables[k], self.pristine[k])]
 
 
 def shadow_copy(sh):
@@ -261,6 +296,7 @@ class FunHistory:
             """trivial user subclass"""
         self.Sub = SubFunctionSignal
         self.rng = rng
+        self.tables = {}      # tabulated responses kept by the caller
         self.live = []        # list of [object, shadow]
         self.log = []
         self._new_source()
@@ -285,7 +321,7 @@ class FunHistory:
             vt = "voltage"
         else:
             c = start + rng.randint(-6, n + 6) * dt * rng.choice([1, 0.5])
-            fn = pulse_fn(rng.randrange(4), c, rng.choice([0.5, 1.0, 2.0]), rng.choice([-2, -1, 1, 2, 3]), rng.randint(-2, 2))
+            fn = pulse_fn(rng.randrange(6), c, rng.choice([0.5, 1.0, 2.0]), rng.choice([-2, -1, 1, 2, 3]), rng.randint(-2, 2))
             obj = (self.Sub if r < 0.3 else FunctionSignal)(times, fn, vt)
         sh = {"times": np.array(times), "vt": vt,
               "comps": [{"fn": fn, "t0": 0, "fac": 1, "lead": 0, "trail": 0, "filters": []}]}
@@ -317,7 +353,11 @@ class FunHistory:
             for c in sh["comps"]:
                 c["fac"] = c["fac"] * arg if op == "imul" else c["fac"] / arg
         elif op in ("filter", "filter_real"):
-            f = lowpass if arg == "lowpass" else delay_filter(arg)
+            if isinstance(arg, str) and arg.startswith("table"):
+                # the SAME response object (and table) is re-used for every signal of the history
+                f = self.tables.setdefault(arg, TabulatedResponse(float(arg[5:])))
+            else:
+                f = lowpass if arg == "lowpass" else delay_filter(arg)
             s.filter_frequencies(f, force_real=(op == "filter_real"))
             for c in sh["comps"]:
                 c["filters"].append((f, op == "filter_real"))
@@ -402,7 +442,7 @@ class FunHistory:
         elif op == "idiv":
             arg = rng.choice([2.0, -4.0, 0.5])
         elif op in ("filter", "filter_real"):
-            arg = rng.choice([0.5, 1.0, 2.0, "lowpass"])
+            arg = rng.choice([0.5, 1.0, 2.0, "lowpass", "table0.5", "table1.0", "table0.5"])
             if sum(len(c["filters"]) for c in sh["comps"]) > 6:
                 return None
         elif op in ("set_buffers", "set_buffers_force"):
@@ -432,7 +472,7 @@ class FunHistory:
         elif op in ("mul_new", "rmul_new", "div_new"):
             arg = rng.choice([2.0, -0.5, 4.0])
         elif op == "add_fun":
-            arg = (rng.randrange(4), float(sh["times"][0]) + rng.randint(-4, n + 4) * dt, rng.choice([0.5, 1.0]), rng.choice([-1, 1, 2]), rng.randint(-1, 1))
+            arg = (rng.randrange(6), float(sh["times"][0]) + rng.randint(-4, n + 4) * dt, rng.choice([0.5, 1.0]), rng.choice([-1, 1, 2]), rng.randint(-1, 1))
         elif op == "add_sibling":
             same = [j for j, (o2, sh2) in enumerate(self.live)
                     if len(sh2["times"]) == n and np.array_equal(sh2["times"], sh["times"]) and
@@ -447,6 +487,9 @@ class FunHistory:
 
     def check(self):
         """every live object against its own definition; returns None or a description"""
+        for name, tab in self.tables.items():
+            if tab.modified():
+                return "the caller's response table %s was modified by evaluating a signal" % name
         for i, (s, sh) in enumerate(self.live):
             got = np.array(s.values, dtype=float)
             fresh = np.array(fresh_function_signal(s).values, dtype=float)
@@ -466,6 +509,9 @@ class FunHistory:
                     i, np.array2string(got[:6], precision=6), np.array2string(rebuilt[:6], precision=6))
             if not np.array_equal(np.asarray(s.times, dtype=float), sh["times"]):
                 return "live object %d: times differ from its own definition" % i
+            for name, tab in self.tables.items():
+                if tab.modified():
+                    return "the caller's response table %s was modified by evaluating live object %d" % (name, i)
         return None
 
 
